@@ -195,7 +195,7 @@ Proof.
       rewrite Rmult_assoc, Rinv_r, Rmult_1_r by lra. lra.
 Qed.
 
-(* ---- the one conjunct that is NOT derived from a proved theorem ---- *)
+(* ---- the one conjunct that is not derived here (proved in Proofs/StepsCloseLink.v) ---- *)
 (* closeness of a steps curve's value to the exact piecewise-linear interpolant, as demanded by the
    observer of a ROOT steps curve (range 0..255, totality and - for integer speeds - monotonicity
    of the steps form ARE proved: Props/C06Steps.v, Props/C07Steps.v) *)
